@@ -504,7 +504,8 @@ def run(ctx):
         ctx.attempt(r, ctx)
     from .C03 import tree_rules
     from .C02 import rule_anchor
-    ctx.attempt(rule_anchor, ctx, "C01.anchor")
+    from .C02 import fill_evaluated
+    fill_evaluated(ctx, "C16.fill", (rule_anchor, (ctx, "C01.anchor"), ("C01.anchor",)))
     tree_rules(ctx, which=("pred", "partition", "descent_q", "scan_q", "early_q", "rows", "empty", "extent", "member"))
     # the caller's arguments (arrays, filter / fill dictionaries) are not modified: an in-place update makes the next call on the same objects wrong
     from ..purity import rule_pure as _rule_args
